@@ -11,7 +11,7 @@ from gvsim.sim import Raised, sut
 
 PROP = 'C06'
 TIERS = {'quick': {'runs': 1400, 'wall': 100}, 'thorough': {'runs': 40000, 'wall': 1500}}
-REACH = ['corrupt_hidden_opacity_flip', 'corrupt_outside', 'monotone_probe', 'scripted_first', 'mask_checked']  # probes / faults that must fire in every batch (reach gaps are reported in the evidence)
+REACH = ['corrupt_hidden_opacity_flip', 'corrupt_outside', 'monotone_probe', 'scripted_first', 'mask_checked', 'from_visibility_with_built_visibility_function']  # probes / faults that must fire in every batch (reach gaps are reported in the evidence)
 RULE = ('one run = a free-form world rich in occluders (walls, closed / locked / open doors), one occluding observation '
         'function (partially_occluded, raytracing, stochastic_raytracing) and a view area, and a walking client; at '
         'every read the faults corrupt_hidden (replace the content of a world cell that is reported Hidden or lies '
